@@ -1,5 +1,6 @@
 """C18 specs: P2P message framing."""
 from pyvc.dsl import spec, Int, Bool, Bytes, le_bytes, le_int, hash256
+from specs.wire import enc_header, compact_size
 
 MAGIC = {'mainnet': b'\xf9\xbe\xb4\xd9', 'testnet': b'\x0b\x11\x09\x07', 'signet': b'\x0a\x03\xcf\x40',
          'regtest': b'\xfa\xbf\xb5\xda'}
@@ -105,3 +106,44 @@ def ref_payload(m):
 def payload_as_prescribed(m, payload):
     want = ref_payload(m)
     return want is None or bytes(payload) == want
+
+
+from pyvc.dsl import TupleOf, Obj
+from bitcoin.core import CBlockHeader as _CBH
+
+
+@spec(recursive=True, sig=[TupleOf(Obj(_CBH))], ret=Bytes)
+def enc_header_entries(hs):
+    """the entries of a headers message: each 80-byte header followed by its (zero) transaction count"""
+    if len(hs) == 0:
+        return b''
+    return enc_header_entries(hs[:-1]) + enc_header(hs[-1]) + b'\x00'
+
+
+from bitcoin.net import CInv as _CInv
+
+
+@spec
+def enc_inv(i):
+    """inventory vector: type (32-bit little-endian) and 32-byte hash"""
+    return le_bytes(i.type % 2**32, 4) + i.hash
+
+
+@spec
+def valid_inv(i):
+    return -2**31 <= i.type and i.type < 2**31 and len(i.hash) == 32
+
+
+@spec(recursive=True, sig=[TupleOf(Obj(_CInv))], ret=Bytes)
+def enc_invs(xs):
+    if len(xs) == 0:
+        return b''
+    return enc_invs(xs[:-1]) + enc_inv(xs[-1])
+
+
+@spec(recursive=True, sig=[TupleOf(Bytes)], ret=Bytes)
+def enc_hashes(hs):
+    """32-byte hashes, concatenated"""
+    if len(hs) == 0:
+        return b''
+    return enc_hashes(hs[:-1]) + hs[-1]
